@@ -33,7 +33,7 @@
    decrypts what every other member sends.
    Statements only. *)
 From Coq Require Import NArith List Bool.
-From MlsV Require Import Res TreeMathGen Tree Kem Priv PrivProofs Decap DecapProofs TreeProofs TreeWF5 PrivComplete KemSecrets KemSecretsProofs Filter FilterProofs Pending PendingProofs.
+From MlsV Require Import Res TreeMathGen Tree Kem Priv PrivProofs Decap DecapProofs KemGen KemGenProofs TreeProofs TreeWF5 PrivComplete KemSecrets KemSecretsProofs Filter FilterProofs Pending PendingProofs.
 Local Open Scope N_scope.
 Import ListNotations.
 
@@ -127,3 +127,16 @@ Theorem C01_member_with_complete_private_state_finds_its_ciphertext :
   exists i key, decap_select t me pr k excl = Ok (Some (i, key)).
 Proof. exact complete_decap_finds_ciphertext. Qed.
 Print Assumptions C01_member_with_complete_private_state_finds_its_ciphertext.
+
+(* the receiver-side selection the theorems above are about IS what the translator reads in
+   tree_kem/kem.rs (find_ciphertext_pos, find_resolved_pos; regenerated on every run) *)
+Theorem C01_translated_ciphertext_filter_is_the_model :
+  forall excl idx, gen_keep excl idx = keep excl idx.
+Proof. exact gen_keep_is_model. Qed.
+Print Assumptions C01_translated_ciphertext_filter_is_the_model.
+
+Theorem C01_translated_resolved_position_is_the_model :
+  forall t me pr k, get t (2 * me) <> None ->
+  gen_resolved_pos (blank_at t me) (nokey_at pr) k = Ok (resolved_pos t me pr k).
+Proof. exact gen_resolved_pos_is_model. Qed.
+Print Assumptions C01_translated_resolved_position_is_the_model.
